@@ -496,7 +496,9 @@ Definition b_read_decimal_len (b : bstate) (length : N) : bres dec :=
       match b_readN b1 length with
       | (b2, Ok bs) =>
         match read_signmag bs with
-        | Ok c => (b2, Ok {| d_coef := c; d_exp := exp; d_negzero := (c =? 0)%Z |})
+        | Ok c => (b2, Ok {| d_coef := c; d_exp := exp;
+                             (* negative zero only when the sign bit of the coefficient is set *)
+                             d_negzero := (128 <=? hd 0 bs) && (c =? 0)%Z |})
         | Panic => (b2, Panic)
         | _ => (b2, Err)
         end
